@@ -59,6 +59,12 @@ func (w *CliWorld) execRelay(op *Op, cli *turn.Client) bool {
 		}
 		payload := MakePayload(w.P.Seed, op.Actor, op)
 		peer := mustUDPAddr(op.A.Peer)
+		if hasFlag(op, "ip4") {
+			// the same address as a 4-byte net.IP (what a udp4 socket's LocalAddr or ReadFrom hands out)
+			if v4 := peer.IP.To4(); v4 != nil {
+				peer = &net.UDPAddr{IP: v4, Port: peer.Port}
+			}
+		}
 		w.call(op, func(c *callRec) {
 			c.Data = payload
 			c.N, c.Err = relay.WriteTo(payload, peer)
